@@ -37,7 +37,7 @@ class Kind:
     @property
     def is_obj(self):
         return self.name not in PRIMS and self.name not in CONTAINERS \
-            and self.name not in ('const', 'pytuple')
+            and self.name not in ('const', 'pytuple', 'emptylist', 'emptydict', 'emptyset')
 
     @property
     def is_list(self):
